@@ -1563,6 +1563,25 @@ for pid, gen, extra in (
         ('C12', gen_C12, dict(cross_build=True)), ('C13', gen_C13, {}), ('C14', gen_C14, {}), ('C15', gen_C15, {}), ('C16', gen_C16, dict(const_facts='c16'))):
     PROPS[pid] = dict(level=LEVELS.get(pid, 'translation_validation'), modules=['Decaf.Props.%s' % pid], namespaces=[pid], gen=gen, trusted_base=list(TB_FIELD),
                       model_is_spec=pid in MODEL_IS_SPEC, **extra)
+# translated code: Props/Translated/Cxx.lean restates the property theorems over the Rust bodies regenerated into Lean on every
+# run (translator/extract_formulas.py -> Generated/Formulas.lean, proved equal to the hand model in Lemmas/Formulas/*)
+FORMULAS = {
+    'C01': ['ark_compress', 'ark_decompress', 'min_compress', 'min_decompress'],
+    'C02': ['ark_decompress', 'min_decompress'],
+    'C03': ['ark_compress', 'min_compress', 'ark_eq', 'min_eq', 'ark_affine_eq'],
+    'C04': ['min_add', 'min_double', 'min_neg'],
+    'C05': ['min_add', 'min_double'],
+    'C06': ['ark_decompress', 'min_decompress', 'ark_elligator', 'min_elligator'],
+    'C07': ['ark_elligator', 'min_elligator', 'min_add'],
+    'C08': ['ark_eq', 'min_eq', 'ark_affine_eq', 'ark_is_identity', 'min_is_identity'],
+    'C12': ['ark_compress', 'ark_decompress', 'ark_elligator', 'min_compress', 'min_decompress', 'min_elligator', 'min_add', 'min_double',
+            'min_neg', 'ark_eq', 'min_eq', 'ark_is_identity', 'min_is_identity'],
+}
+for _pid, _fs in FORMULAS.items():
+    PROPS[_pid]['modules'] = PROPS[_pid]['modules'] + ['Decaf.Props.Translated.%s' % _pid]
+    PROPS[_pid]['formulas'] = _fs
+    PROPS[_pid]['namespaces'] = PROPS[_pid]['namespaces'] + ['Formulas', 'Code']
+
 PROPS['C15']['explanation'] = ('Observation, not proof: the constraint matrices are produced at run time by ark-r1cs-std and key compatibility is a fact about '
                                'ark-groth16; the check digests to_matrices() of every gadget over all input classes and in Setup vs Prove mode, checks that a public '
                                'element contributes exactly the instance [1, encode P] = to_field_elements, and (thorough) proves/verifies with the pinned keys and '
